@@ -547,8 +547,6 @@ def setup():
             if rc != 0:
                 log(out[-3000:])
                 failed = True
-    if failed:
-        return 1
     # run all translators so that Gen/* exists before the Lean build
     seen = set()
     for p in props.values():
@@ -561,13 +559,25 @@ def setup():
             log(f"gen {' '.join(g)}: rc={rc} {dt:.1f}s")
             if rc != 0:
                 log((so + se)[-3000:])
-    targets = ["Verif", "Drv"] + ["drv_" + os.path.basename(f)[:-5].lower()
-                                  for f in glob.glob(os.path.join(LEAN, "Drv", "*.lean"))]
+    # Build what the claimed properties need (not the whole library: work in progress of properties that
+    # are not claimed yet must not break the setup).  A failure here is reported but does not fail the
+    # setup: the affected property's own check will rebuild and report it.
+    targets = []
+    for p in props.values():
+        for t in sorted({s_["driver"] for s_ in p.get("streams", [])}) + p.get("theorem_modules", []):
+            if t not in targets:
+                targets.append(t)
     rc, so, se, dt = lake_build(targets, timeout=7200)
-    log(f"lake build: rc={rc} {dt:.0f}s")
+    log(f"lake build ({len(targets)} targets): rc={rc} {dt:.0f}s")
     if rc != 0:
-        log((so + se)[-6000:])
-        return 1
+        log((so + se)[-3000:])
+        for p in props.values():
+            ts = sorted({s_["driver"] for s_ in p.get("streams", [])}) + p.get("theorem_modules", [])
+            rc2, so2, se2, dt2 = lake_build(ts, timeout=3600)
+            log(f"lake build {p['id']}: rc={rc2} {dt2:.0f}s")
+    # warm the audit tool (first `import Lean` is slow on a cold machine)
+    with LakeLock():
+        run(["lake", "env", "lean", "--run", "Audit.lean"], cwd=LEAN, timeout=900)
     log(f"setup done in {time.time() - t0:.0f}s")
     return 0
 
